@@ -5,9 +5,12 @@ package main
 import (
 	"fmt"
 	"math/big"
+	"os"
 	"regexp"
 	"strconv"
 	"strings"
+
+	"golang.org/x/tools/go/ssa"
 )
 
 // suiteOf: the configuration an RFC 6287 suite string denotes (trusted 40-line tokenizer):
@@ -208,4 +211,68 @@ func (u *Unit) tableObligations(fre, kre *regexp.Regexp) ([]*Obligation, []FuncO
 		}
 	}
 	return out, fo
+}
+
+// jsTableObligations: the export table of the JavaScript entry module and the names the Go side
+// registers, as ground obligations. The JavaScript file is not Go: its export object is extracted
+// with one regular expression (`<name>: globalThis.<global>`); everything else in the file is dropped.
+func (u *Unit) jsTableObligations(repo string, fre, kre *regexp.Regexp) ([]*Obligation, []FuncOut) {
+	var out []*Obligation
+	mk := func(fn, label string, holds bool, src string) {
+		name := fmt.Sprintf("%s.%s/table:%s", u.Name, fn, label)
+		goal := tTrue
+		if !holds {
+			goal = tFalse
+		}
+		if fre.MatchString(fn) && kre.MatchString(name) {
+			out = append(out, &Obligation{Name: name, Kind: "table", Func: fn, Unit: u.Name, Guard: tTrue, Goal: goal, Extra: tTrue, Src: src, Trivial: true})
+		}
+	}
+	want := []string{"generateHOTP", "generateTOTP", "validateHOTP", "validateTOTP", "generateOTPURL"}
+	// Go side: registerFunctions binds each global name to the Go function of the same name
+	reg := map[string]string{}
+	for _, p := range u.Pkgs {
+		if fn := p.Func("registerFunctions"); fn != nil {
+			for _, b := range fn.Blocks {
+				for _, in := range b.Instrs {
+					c, ok := in.(*ssa.Call)
+					if !ok || c.Call.StaticCallee() == nil || c.Call.StaticCallee().String() != "(syscall/js.Value).Set" {
+						continue
+					}
+					k, ok := c.Call.Args[1].(*ssa.Const)
+					if !ok || k.Value == nil {
+						continue
+					}
+					name := strings.Trim(k.Value.ExactString(), "\"")
+					// the value: make any <- js.Func (FuncOf(f))
+					var target string
+					if mi, ok := c.Call.Args[2].(*ssa.MakeInterface); ok {
+						if fc, ok := mi.X.(*ssa.Call); ok && fc.Call.StaticCallee() != nil && fc.Call.StaticCallee().String() == "syscall/js.FuncOf" {
+							if f, ok := fc.Call.Args[0].(*ssa.Function); ok {
+								target = f.Name()
+							}
+						}
+					}
+					reg[name] = target
+				}
+			}
+		}
+	}
+	for _, n := range want {
+		mk("main.table$registerFunctions", fmt.Sprintf("global[%s]", n), reg[n] == n, fmt.Sprintf("registerFunctions binds the global %q to the Go function %s (found %q)", n, n, reg[n]))
+	}
+	// JavaScript side
+	data, err := os.ReadFile(repo + "/otp-js/src/index.js")
+	exp := map[string]string{}
+	if err == nil {
+		re := regexp.MustCompile(`(?m)^\s*([A-Za-z_]\w*)\s*:\s*globalThis\.([A-Za-z_]\w*)\s*,?\s*$`)
+		for _, m := range re.FindAllStringSubmatch(string(data), -1) {
+			exp[m[1]] = m[2]
+		}
+	}
+	for _, n := range want {
+		mk("main.table$index.js", fmt.Sprintf("index.js[%s]", n), exp[n] == n, fmt.Sprintf("otp-js/src/index.js exports %s as globalThis.%s (found globalThis.%s)", n, n, exp[n]))
+	}
+	mk("main.table$index.js", "index.js.count", len(exp) == len(want), fmt.Sprintf("index.js exports exactly the five binding functions (found %d)", len(exp)))
+	return out, []FuncOut{{Name: "main.table$registerFunctions", Unit: u.Name, HasContract: true, Obligations: len(want)}, {Name: "main.table$index.js", Unit: u.Name, HasContract: true, Obligations: len(want) + 1}}
 }
